@@ -219,7 +219,17 @@ def _check_map(case):
         elif fault == "surplus-input":
             inputs["not_a_parameter"] = [1, 2]
         elif fault == "unknown-storage":
-            kw["storage"] = "no_such_storage"
+            # as one name for everything, or for one output only in a per-output dict (before / after a valid entry)
+            import random as _r
+            rr = _r.Random(case["seed"])
+            outs_ = [o for f in prog["funcs"] for o in f["outputs"]]
+            form = rr.choice(("plain", "dict-valid-first", "dict-unknown-first"))
+            if form == "plain":
+                kw["storage"] = "no_such_storage"
+            elif form == "dict-valid-first":
+                kw["storage"] = {"": rr.choice(("file_array", "dict")), rr.choice(outs_): "no_such_storage"}
+            else:
+                kw["storage"] = {rr.choice(outs_): "no_such_storage", "": rr.choice(("file_array", "dict"))}
         elif fault == "executor-without-parallel":
             from concurrent.futures import ThreadPoolExecutor
             kw["executor"] = ThreadPoolExecutor(1)
